@@ -13,7 +13,7 @@ cnt=0
 mine() { cnt=$((cnt+1)); [ $(( (cnt-1) % SN )) -eq $SI ]; }
 rm -rf $R $V; mkdir -p $R $V; rsync -a --exclude .git /repo/ $R/; rsync -a --exclude .git --exclude bin --exclude replays --exclude seeded --exclude govc /verif/ $V/
 L=/tmp/st_$SI.log
-run() { GOVC_FULL_SEC=10 ./bin/govc check -j 6 -repo $R -verif $V -property "$1" >$L 2>&1; echo $?; }
+run() { GOVC_FULL_SEC=${ST_FULL:-20} ./bin/govc check -j 6 -repo $R -verif $V -property "$1" >$L 2>&1; echo $?; }
 for d in seeded/*/; do
   id=$(basename $d); pid=$(python3 -c "import json;print(json.load(open('$d/meta.json'))['property'])" 2>/dev/null || echo ${id%%-*})
   case $pid in $filter*) ;; *) continue;; esac
